@@ -24,7 +24,18 @@ class Refused(Exception):
 
 def content_of(P):
     return {"fields": list(P["fields"]), "idx": [lev["idx"] for lev in P["levels"]],
-            "data": [[np.array(a) for a in lev["data"]] for lev in P["levels"]], "time": P["time"]}
+            "data": [[np.array(a) for a in lev["data"]] for lev in P["levels"]], "time": P["time"], "geom": geom_of(P)}
+
+
+def geom_of(P, nlev=None):
+    """the mesh beyond the index ranges: dimensions, domain bounds, and per level cell sizes, domain size in cells, physical boxes"""
+    n = len(P["levels"]) if nlev is None else nlev
+    return {"ndims": P["ndims"], "lo": list(P["lo"]), "hi": list(P["hi"]),
+            "levels": [[list(P["dx"][l]), list(P["grid"][l]), P["levels"][l]["pboxes"]] for l in range(n)]}
+
+
+def cut_geom(g, n):
+    return dict(g, levels=g["levels"][:n])
 
 
 def pure_strain(c, variables, limit):
@@ -36,7 +47,8 @@ def pure_strain(c, variables, limit):
         kept = list(range(len(c["fields"]))); kn = list(names)
     else:
         kn = [v for v in variables if v in names]; kept = [names[v] for v in kn]
-    return {"fields": kn, "idx": c["idx"][: L + 1], "data": [[a[..., kept] for a in lev] for lev in c["data"][: L + 1]], "time": c["time"]}
+    return {"fields": kn, "idx": c["idx"][: L + 1], "data": [[a[..., kept] for a in lev] for lev in c["data"][: L + 1]], "time": c["time"],
+            "geom": cut_geom(c["geom"], L + 1)}
 
 
 def pure_combine(a, b, v1, v2):
@@ -50,7 +62,7 @@ def pure_combine(a, b, v1, v2):
     i1 = [na[v] for v in s1]; i2 = [nb[v] for v in s2]
     return {"fields": s1 + s2, "idx": a["idx"],
             "data": [[np.concatenate([x[..., i1], y[..., i2]], axis=-1) for x, y in zip(la, lb)] for la, lb in zip(a["data"], b["data"])],
-            "time": a["time"]}
+            "time": a["time"], "geom": a["geom"]}
 
 
 def pure_cook(c, newname, kept):
@@ -61,7 +73,7 @@ def pure_cook(c, newname, kept):
         raise Refused("duplicate name")
     return {"fields": kn + [newname], "idx": c["idx"],
             "data": [[np.concatenate([a[..., ki], (a[..., 0] * 2 + 1)[..., None]], axis=-1) for a in lev] for lev in c["data"]],
-            "time": c["time"]}
+            "time": c["time"], "geom": c["geom"]}
 
 
 def same_content(c, P):
@@ -72,6 +84,16 @@ def same_content(c, P):
         return "mesh differs"
     if P["time"] != c["time"]:
         return "time differs"
+    g = geom_of(P)
+    if g != c["geom"]:
+        for k in ("ndims", "lo", "hi"):
+            if g[k] != c["geom"][k]:
+                return f"mesh differs: {k} {g[k]} != {c['geom'][k]}"
+        for l, (x, y) in enumerate(zip(g["levels"], c["geom"]["levels"])):
+            for what, u, v in zip(("cell sizes", "domain size in cells", "physical boxes"), x, y):
+                if u != v:
+                    return f"mesh differs: {what} at level {l}: {u} != {v}"
+        return "mesh differs"
     for lv, (lp, lc) in enumerate(zip(P["levels"], c["data"])):
         for b, (x, y) in enumerate(zip(lp["data"], lc)):
             if not oracle.same_bits(x, y):
@@ -79,8 +101,9 @@ def same_content(c, P):
     return None
 
 
-def apply_real(ctx, op, cur, env):
-    """runs the real tool; returns the output path"""
+def apply_real(ctx, op, cur, env, readers=None):
+    """runs the real tool; returns the output path; `readers` (path -> reader object) makes the combine steps of a
+    sequence share one reader object per plotfile, as a script that opens its inputs once does"""
     out = ctx.newdir("c14o_")
     k = op["op"]
     if k == "colander":
@@ -88,7 +111,15 @@ def apply_real(ctx, op, cur, env):
     elif k == "combine":
         other = env[op["with"]]
         a, b = (cur, other) if op.get("first", True) else (other, cur)
-        tools.combine(a, b, out, op.get("v1"), op.get("v2"))
+        if readers is None:
+            tools.combine(a, b, out, op.get("v1"), op.get("v2"))
+        else:
+            from amr_kitchen import PlotfileCooker
+            from amr_kitchen.combine.combine import combine as cb
+            for x in (a, b):
+                if x not in readers:
+                    readers[x] = PlotfileCooker(x)
+            cb(readers[a], readers[b], pltout=out, vars1=op.get("v1"), vars2=op.get("v2"))
     elif k == "chef":
         rp = os.path.join(ctx.scratch, f"rec_{op['name']}.py")
         with open(rp, "w") as f:
@@ -109,10 +140,12 @@ def apply_pure(op, c, cenv):
         return pure_cook(c, op["name"], op["kept"])
 
 
-def run_seq(ctx, rep, spec, sib, ops, start=None, source="plotgen"):
-    case = {"spec": spec, "sibling": sib, "ops": ops}
+def run_seq(ctx, rep, spec, sib, ops, start=None, source="plotgen", reuse=False):
+    case = {"spec": spec, "sibling": sib, "ops": ops, "reuse": reuse}
+    readers = {} if reuse else None
+    rep.count("shared-readers" if reuse else "fresh-readers")
     feats = plotgen.describe(spec)
-    rep.case({"s": spec, "o": ops}, nontrivial=(len(ops) >= 2 or "nonmonotone" in feats))
+    rep.case({"s": spec, "o": ops, "r": reuse}, nontrivial=(len(ops) >= 2 or "nonmonotone" in feats))
     rep.count(f"len:{len(ops)}")
     for o in ops:
         rep.count("op:" + o["op"])
@@ -129,7 +162,7 @@ def run_seq(ctx, rep, spec, sib, ops, start=None, source="plotgen"):
             want, refused = None, str(e)
         try:
             with alarm(300), quiet(), pools.controlled(start=start):
-                out = apply_real(ctx, op, cur, env)
+                out = apply_real(ctx, op, cur, env, readers)
             err = None
         except Exception as e:
             out, err = None, e
@@ -210,6 +243,10 @@ def run(ctx, rep, model=True):
     extra = 14 if ctx.quick else 100
     for _ in range(extra):
         seqs.append([ctx.rng.choice(kinds) for _ in range(ctx.rng.choice([3, 4]))])
+    # the same ancestor / sibling is an argument of two combinations
+    seqs.append(["chef", "combine-ancestor-first", "colander", "combine-ancestor-first"])
+    seqs.append(["combine-sibling", "chef", "colander", "combine-ancestor-first", "chef", "colander", "combine-ancestor-first"])
+    seqs.append(["chef", "combine-ancestor-first", "colander", "combine-ancestor"])
     # the two corollaries named by the property
     seqs.append("cook-combine-back"); seqs.append("strain-all")
     for i, ks in enumerate(seqs):
@@ -229,7 +266,7 @@ def run(ctx, rep, model=True):
             ops = [{"op": "colander", "vars": ["all"], "limit": None}]
         else:
             ops = gen_ops(ctx.rng, spec, sib, ks)
-        run_seq(ctx, rep, spec, sib, ops, start=[None, pools.order_reversed][i % 2])
+        run_seq(ctx, rep, spec, sib, ops, start=[None, pools.order_reversed][i % 2], reuse=(i % 3 != 0))
         if len(rep.violations) >= 10:
             return
     # chk2plt outputs as sources
@@ -263,4 +300,4 @@ def replay(ctx, rep, obj, model=True):
     c = obj["case"]
     if "chk" in c:
         return
-    run_seq(ctx, rep, c["spec"], c["sibling"], c["ops"])
+    run_seq(ctx, rep, c["spec"], c["sibling"], c["ops"], reuse=c.get("reuse", False))
